@@ -92,6 +92,9 @@ TLV_SRC_MOD = {n: part for v in TLV_SRC.values() for part, ns in v.items() for n
 
 # properties whose statements reach the cryptogram-version classes
 CVN_PIDS = {"C08", "C13", "C14", "C15", "C16"}
+CVN_CLASSES = ["VisaCVN10", "VisaCVN18", "VisaCVN22", "InteracCVN133", "MasterCardCVN16", "MasterCardCVN17", "MasterCardCVN20", "MasterCardCVN21"]
+# property theorems restated about the translated classes (lean/PyemvGen/CvnSource.lean, written by lean/mk_cvn_source.py)
+CVN_SRC = {"C08": ["_card_accepts_and_recovers"], "C13": ["_ctor_keys"], "C16": ["_forms", "_pin_change_forms"]}
 
 
 # corollaries that restate a property theorem about the definition translated from the source (module → names)
@@ -128,6 +131,7 @@ def gen_obligations(pid):
     if pid in CVN_PIDS:
         gen = json.load(open(os.path.join(LEAN, "obligations.json"))).get("C08_gen", [])
         out += gen if pid == "C08" else [n for n in gen if n.endswith("_new") or n.endswith("_row")]
+        out += ["Pyemv.CvnSource." + c + s for c in CVN_CLASSES for s in CVN_SRC.get(pid, [])]
     return out
 
 
@@ -260,6 +264,12 @@ def lake_build(pid):
                 errs = [ln for ln in g.stdout.split("\n") if ln.startswith("error:")][:4]
                 problems.append((tag, f"{tag}: the definitions translated from the current source are no longer proved "
                                       "equal to the model: " + " | ".join(errs)[:900]))
+            elif tag == "CvnRefines" and pid in CVN_SRC:
+                g = sh(["lake", "build", "PyemvGen.CvnSource"], cwd=LEAN)
+                if g.returncode != 0:
+                    errs = [ln for ln in g.stdout.split("\n") if ln.startswith("error:")][:4]
+                    problems.append(("CvnSource", "CvnSource: the property theorems restated about the translated classes no longer check: "
+                                     + " | ".join(errs)[:900]))
         return True, r.stdout, problems
 def strip_comments(src):
     src = re.sub(r"/-.*?-/", lambda m: "\n" * m.group(0).count("\n"), src, flags=re.S)
@@ -287,6 +297,8 @@ def obligations(pid, gen=True):
 
 def is_broken(name, broken):
     last = name.split(".")[-1]
+    if ".CvnSource." in name:
+        return "CvnRefines" in broken or "CvnSource" in broken
     if name in SRC_BY_THM:
         e = SRC_BY_THM[name]
         return ("Src." + e["module"]) in broken or any(("ModRefines." + u) in broken for u in e["uses"])
@@ -311,6 +323,8 @@ def audit(pid, workdir, broken=()):
             imports += "import PyemvGen.Mod." + SOURCE_MODULE.get(last, last) + "\n"
     if any(".CvnRefines." in n for n in printable):
         imports += "import PyemvGen.CvnRefines\n"
+    if any(".CvnSource." in n for n in printable):
+        imports += "import PyemvGen.CvnSource\n"
     for h in sorted({TLV_HALF[n.split(".")[-1]] for n in printable if ".TlvRefines." in n}):
         imports += "import " + TLV_MODULE[h] + "\n"
     for part in sorted({TLV_SRC_MOD[n.split(".")[-1]] for n in printable if ".TlvSource." in n}):
